@@ -111,6 +111,22 @@ def check_layout_predicates(res, L, rng, tag, light=False):
                 and eq(A * (B * 5), (A * B) * 5)):
             res.violate('product is not bilinear', dict(site, A=A.value.tolist(), B=B.value.tolist(), C=C.value.tolist()),
                         ((A + B) * C).value.tolist(), (A * C + B * C).value.tolist(), site)
+        # bilinearity for float and complex data across magnitudes: scaling by a power of two is exact, so
+        # (2^-k A)(2^k B) = AB, 1*(2^-k A) = 2^-k A and (i 2^-k A) B = i 2^-k (AB) hold bit for bit
+        Af, Bf = A.astype(np.float64), B.astype(np.float64)
+        if np.max(np.abs(A.value)) <= 64 and np.max(np.abs(B.value)) <= 64:
+            AB = Af * Bf
+            for k in (45, 60):
+                lo, hi = 2.0 ** -k, 2.0 ** k
+                res.case(('bilinear-scale', tag, k) + key[1:3], nontrivial=nt)
+                res.count('bilinear_scale')
+                got = (lo * Af) * (hi * Bf)
+                got2 = (one.astype(np.float64)) * (lo * Af)
+                got3 = ((1j * lo) * Af) * Bf
+                if not (np.array_equal(got.value, AB.value) and np.array_equal(got2.value, (lo * Af).value)
+                        and np.array_equal(got3.value, (1j * lo) * AB.value)):
+                    res.violate('product is not bilinear across magnitudes (float/complex data scaled by powers of two)',
+                                dict(site, A=A.value.tolist(), B=B.value.tolist(), k=k), got.value.tolist(), AB.value.tolist(), dict(site, op='bilinear-scale'))
         # v*v = Q(v)
         coef = [int(x) for x in rng.integers(-9, 10, size=n)]
         v = one * 0
